@@ -6,7 +6,10 @@ import lib
 
 NAMES_OK = ["a", "b", "k", "x1", "n-1", "é"]
 NAMES_BAD = ["1a", "a b", "", "<", "a'", "x:"]
-ALPHA = ["a", " ", "<", "&", ">", "'", '"', "-", "]", "?", ";", "#", "é", "x", "]]>", "--", "?>", "&amp;", "&#65;"]
+# (the last ones: code points that are not XML Chars - a control character, a vertical tab, the two non-characters -: data with
+# them cannot be written so that it parses back and has to be refused; round-7 seed C15-J skipped the Char test on a fast path)
+ALPHA = ["a", " ", "<", "&", ">", "'", '"', "-", "]", "?", ";", "#", "é", "x", "]]>", "--", "?>", "&amp;", "&#65;",
+         "\u0001", "\u000b", "\ufffe", "\uffff", "\u001f"]
 ALLOC = ("ce", "ct", "cc", "cd", "cp", "ca", "cr", "st", "ga", "ch", "gni")
 
 
@@ -142,6 +145,8 @@ class Hist:
         if r.random() < self.hostile:
             return "".join(r.choice(ALPHA) for _ in range(r.randint(0, 4)))
         # white space at either end matters where the serialization has a separator next to the data (<?t data?>)
+        if r.random() < 0.04:
+            return r.choice(["a\u0001", "\u000bz", "x\ufffe", "\uffff", "ok\u001f"])
         return r.choice(["t", "ab", "x y", "é", "12", "", "a-b", "a]]", ">b", "]", "]>x", "a-x-b", "ab-c", "]]x>",
                          " x", "  x y ", "\n\tz", "\tq ", " ", "x\r\ny", "\u00a0x",
                          # both kinds of quote (an attribute value that holds them has to be written with a reference)
@@ -290,8 +295,9 @@ class Hist:
                 nm = self.name()
                 self.shadow.append("attr" if nm in NAMES_OK else None)
                 return "ca:" + enc2(nm)
-            nm = r.choice(["amp", "lt", "quot", "nosuch", "1x", "gt"])
-            self.shadow.append("ref" if nm in ("amp", "lt", "quot", "gt") else None)
+            # (names that only BEGIN with the name of an entity: the whole argument has to be a Name; round-7 seed C18-J)
+            nm = r.choice(["amp", "lt", "quot", "nosuch", "1x", "gt", "amp;x", "lt;gt", "amp;", "quot; x='1'", "apos", "#38", "amp "])
+            self.shadow.append("ref" if nm in ("amp", "lt", "quot", "gt", "apos") else None)
             return "cr:" + enc2(nm)
         if k < 0.36:
             return "ap:%s:%s" % (self.h(self.pick(containers)), self.h(self.pick(leafs)))
